@@ -194,10 +194,18 @@ class Case:
                 raise
 
     # ---- steps ----------------------------------------------------------------------------
-    def new_name(self):
+    def new_name(self, kind="prop"):
+        """Names are unique per kind; properties and subsections live in separate name spaces, so a property and a
+        subsection may share a name (then dictionary-style lookup, like assignment and deletion, addresses the property)."""
         base = self.rng.choice(["p", "zz", "aa", "ü", "x y", "P", "0", "values"])
+        mine = {e[0] for e in self.props} if kind == "prop" else set(self.subs)
+        other = set(self.subs) if kind == "prop" else {e[0] for e in self.props}
+        free = sorted(other - mine)
+        if free and self.rng.random() < 0.35:
+            self.ctx.count("same_name_for_property_and_subsection")
+            return self.rng.choice(free)
         n, i = base, 0
-        taken = {e[0] for e in self.props} | set(self.subs)
+        taken = mine | other
         while n in taken:
             i += 1
             n = "%s%d" % (base, i)
@@ -366,7 +374,7 @@ class Case:
         elif op == "subsection":
             if len(self.subs) >= 3:
                 return None
-            n = self.new_name()
+            n = self.new_name("sub")
             sec.create_section(n, "sub")
             self.subs.append(n)
         elif op == "attrs":
@@ -422,7 +430,7 @@ class Case:
         try:
             self.sec = self.f.create_section("s", "t")
             for _ in range(rng.randint(0, 2)):
-                n = self.new_name()
+                n = self.new_name("sub")
                 self.sec.create_section(n, "sub")
                 self.subs.append(n)
             for _ in range(rng.randint(1, 3)):
